@@ -139,7 +139,7 @@ func genProgram(t *rapid.T, pf Profile) Program {
 	ws := []w{
 		{"update", pf.Closure * 3}, {"view", pf.Closure},
 		{"begin", pf.Txn * 2}, {"get", pf.Txn * 3}, {"set", pf.Txn * 3}, {"del", pf.Txn}, {"commit", pf.Txn * 2}, {"reread", pf.Txn},
-		{"discard", pf.Abandon}, {"update_fail", pf.Abandon},
+		{"discard", pf.Abandon}, {"update_fail", pf.Abandon}, {"burst", (pf.Txn + 2) / 3},
 		{"fstep", pf.Flusher * 2}, {"fidle", pf.Flusher},
 		{"reopen", pf.Reopen}, {"misuse", pf.Misuse}, {"checkall", 1},
 	}
@@ -179,6 +179,11 @@ func genProgram(t *rapid.T, pf Profile) Program {
 			o.T = rapid.IntRange(0, 7).Draw(t, "t")
 			o.K = rapid.IntRange(0, nk-1).Draw(t, "k")
 			o.VLen = genVLen(t)
+		case "burst":
+			// many small commits in a row while whatever is open stays open: drives the
+			// committed-transaction list through its clean-up with old readers pending
+			o.N = rapid.IntRange(5, 35).Draw(t, "burstN")
+			o.K = rapid.IntRange(0, nk-1).Draw(t, "k")
 		case "fstep":
 			o.N = rapid.IntRange(1, 4).Draw(t, "n")
 		case "reopen":
